@@ -16,6 +16,42 @@ ASSUMPTIONS = ["metamorphic (two-call) property: no function contract decides it
 RULE = "kernels of length 2-7 over the per-ISA vocabulary (register, flag, memory, write-back forms), every rotation offset, models zen2/a64fx (thorough: more)"
 
 
+def rotation_lemma_unit(res):
+    """L (the mechanised part of the rotation argument): over an abstract dependency relation R of the periodic instruction stream
+    (period n: R(i+n, j+n) = R(i, j)) with periodic edge weights w and periodic instruction identities id, the stream of the body
+    rotated by r is R_r(i, j) = R(i+r, j+r), w_r, id_r likewise.  (1) R_r, w_r, id_r are periodic again; (2) a chain p_0 .. p_m is a
+    cross-iteration cycle of R_r from a to a+n iff the shifted chain p_k + r is one of R from a+r to a+r+n (both directions, by
+    induction over the position); (3) the two chains visit the same instructions (id_r(p_k) = id(p_k + r)) and (4) their latency
+    prefix sums agree at every position - so the set of (member instructions, latency) of the loop-carried dependencies is the same.
+    What stays argued (U): the relation the code computes on two concatenated iterations IS such an R (C03 + window lemma of C05)."""
+    import z3
+    I_, B_, R_ = z3.IntSort(), z3.BoolSort(), z3.RealSort()
+    R = z3.Function("R", I_, I_, B_)
+    w = z3.Function("w", I_, I_, R_)
+    ident = z3.Function("id", I_, I_)
+    pth = z3.Function("p", I_, I_)
+    S_r = z3.Function("prefix_sum_rotated", I_, R_)
+    S_o = z3.Function("prefix_sum_original", I_, R_)
+    n, r, a, m, k, i, j = z3.Ints("n r a m k i j")
+    per = [n >= 1, z3.ForAll([i, j], R(i + n, j + n) == R(i, j)), z3.ForAll([i, j], w(i + n, j + n) == w(i, j)), z3.ForAll([i], ident(i + n) == ident(i))]
+    Rr = lambda x, y: R(x + r, y + r)
+    wr = lambda x, y: w(x + r, y + r)
+    idr = lambda x: ident(x + r)
+    res.add("rotation/rotated-relation-is-periodic", per, z3.And(Rr(i + n, j + n) == Rr(i, j), wr(i + n, j + n) == wr(i, j), idr(i + n) == idr(i)), label="L")
+    # chain property at one position (the induction over k is pointwise: every link of one chain is a link of the other)
+    res.add("rotation/chain-link-shifts", per + [0 <= k, k < m], Rr(pth(k), pth(k + 1)) == R(pth(k) + r, pth(k + 1) + r), label="L")
+    res.add("rotation/end-points-shift", per + [pth(0) == a, pth(m) == a + n], z3.And(pth(0) + r == a + r, pth(m) + r == (a + r) + n), label="L")
+    res.add("rotation/same-instructions", per + [0 <= k, k <= m], idr(pth(k)) == ident(pth(k) + r), label="L")
+    # latency: prefix sums defined by S(0) = 0, S(k+1) = S(k) + weight of link k agree by induction
+    defs = [S_r(0) == 0, S_o(0) == 0, z3.ForAll([k], z3.Implies(z3.And(0 <= k, k < m), S_r(k + 1) == S_r(k) + wr(pth(k), pth(k + 1)))),
+            z3.ForAll([k], z3.Implies(z3.And(0 <= k, k < m), S_o(k + 1) == S_o(k) + w(pth(k) + r, pth(k + 1) + r)))]
+    res.add("rotation/latency/base", per + defs, S_r(0) == S_o(0), label="L")
+    res.add("rotation/latency/step", per + defs + [0 <= k, k < m, S_r(k) == S_o(k)], S_r(k + 1) == S_o(k + 1), label="L")
+    # the start instruction of the rotated cycle is an instruction of the body: a in [0, n) maps to (a + r) mod n, same identity
+    res.add("rotation/root-folds-into-the-body", per + [0 <= a, a < n, 0 <= r, r < n], z3.And(idr(a) == ident(z3.If(a + r >= n, a + r - n, a + r)), 0 <= z3.If(a + r >= n, a + r - n, a + r), z3.If(a + r >= n, a + r - n, a + r) < n), label="L")
+    return res
+
+
 def units(tier):
     from .c16 import partition_unit
     from pyvc.runner import Unit as U_
@@ -24,6 +60,7 @@ def units(tier):
     return [U_("C14/find_depending(dependence of a pair is a function of the instructions from producer to consumer)", find_depending_unit, "P", [(KDG, "KernelDG.find_depending")], decisive=False),
             U_("C14/check_for_loopcarried_dep/post-processing(entries keyed by their sorted member list)", postprocess_unit, "P", [(KDG, "KernelDG.check_for_loopcarried_dep")], decisive=False),
             U_("C14/check_for_loopcarried_dep/partition(kernels >= 50 lines)", partition_unit, "P", [(KDG, "KernelDG.check_for_loopcarried_dep")], decisive=False),
+            U_("C14/lemma/rotation-shifts-cycles(members, latency)", rotation_lemma_unit, "L", [], decisive=False),
             bounded_unit("C14/parallel-search-equals-sequential", "c16_parallel", [(KDG, "KernelDG.check_for_loopcarried_dep")], timeout=1800),
             bounded_unit("C14/rotation-invariance", "dg_oracle", [(KDG, "KernelDG.check_for_loopcarried_dep"), (KDG, "KernelDG.create_DG")],
                          extra_args=["C14"], timeout=1800, decisive=True)]
